@@ -231,6 +231,17 @@ func teardownScenario(kind, handler, peer, closers string) *vsched.Scenario {
 			if detached && closes == 0 && reg > 0 {
 				add("detached-but-registered", "Detach returned, the descriptor is open, but it is still registered with the poller")
 			}
+			// the poller registration is released exactly once (an explicit EPOLL_CTL_DEL; closing the
+			// descriptor would drop it silently, but then the slot is freed while events may still arrive)
+			dels := 0
+			for _, c := range led.Ctl {
+				if c.Fd == a && c.Op == 2 && c.Err == 0 {
+					dels++
+				}
+			}
+			if l.firstPrefix("closecb:") >= 0 && dels != 1 {
+				add(fmt.Sprintf("registration-released=%d", dels), fmt.Sprintf("the connection was torn down but its poller registration was explicitly released %d times (want exactly once)", dels))
+			}
 		}
 		// poller slot released exactly once
 		free, alloc, _ := netpoll.VerifOpCacheDetail(poll)
